@@ -213,9 +213,23 @@ fn run_block(lines: &[String], out: &mut Out) {
     if status == "done" {
         for h in handles { let _ = h.join(); }
     } else {
-        s.inner.lock().unwrap().abort = true;
-        s.cv.notify_all();
-        for h in handles { let _ = h.join(); }
+        // the scenario did not finish within its step budget: some operation waits for another thread
+        // (or for the thread it interrupted). The stuck threads cannot be torn down - letting them run
+        // freely would spin and log for ever - so report what happened and leave the process; the
+        // caller runs the remaining scenarios in a fresh one.
+        let g = s.inner.lock().unwrap();
+        for l in g.log.iter() {
+            out.line(l);
+        }
+        out.line("final-drop ?");
+        let spur = spur_log.lock().unwrap();
+        let sch: Vec<String> = g.schedule.iter().zip(spur.iter()).map(|(t, s)| format!("{}{}", t, if *s { "s" } else { "" })).collect();
+        out.line(&format!("SCHEDULE {}", sch.join(" ")));
+        out.line(&format!("END {}", status));
+        out.line("---");
+        out.line("ABANDONED");
+        out.flush();
+        unsafe { libc::_exit(0) };
     }
     // drop the channel: whatever is still inside is dropped now
     unsafe { CHAN = None; }
